@@ -378,7 +378,12 @@ def gen_sync():
     # detection filter of sync_detect (D2)
     detect_hdr = lib[lib.index("fn sync_detect"):]
     detect_hdr = detect_hdr[: detect_hdr.index("{")]
-    detects_added_entity = "Added<SyncEntity>" in detect_hdr.replace(" ", "")
+    skin_hdr = lib[lib.index("fn sync_skinned_mesh"):]
+    skin_hdr = re.sub(r"\s+", "", skin_hdr[: skin_hdr.index("{")])
+    dh = re.sub(r"\s+", "", detect_hdr)
+    detects_added_entity = ("Or<(Changed<T>,Added<SyncEntity>)>" in dh) and ("Or<(Changed<SkinnedMesh>,Added<SyncEntity>)>" in skin_hdr)
+    if not detects_added_entity and ("Added<SyncEntity>" in dh or "Added<SyncEntity>" in skin_hdr):
+        raise TranslateError("sync_detect / sync_skinned_mesh: detection filters not recognised")
     for need in ("With<SyncEntity>", "Without<SyncExclude<T>>", "Changed<T>"):
         if need not in detect_hdr.replace(" ", ""):
             raise TranslateError("sync_detect filter lacks %s" % need)
@@ -601,6 +606,30 @@ def gen_conn():
     write("Conn.lean", text)
 
 
+def gen_ent():
+    """shape of the entity-life handlers the Ent slice models (both receiver.rs): the delete handler despawns the named
+    entity only (no recursion) and forgets both map entries; the client's spawn handler has the duplicate guard; the host
+    relays both immediately to everybody but the sender"""
+    def squash(path):
+        return re.sub(r"\s+", "", strip_comments(open(os.path.join(REPO, path)).read()))
+    srecv, crecv = squash("src/server/receiver.rs"), squash("src/client/receiver.rs")
+    c_del = "Message::EntityDelete{id}=>{letSome(&e_id)=track.uuid_to_entity.get(&id)else{return;};letSome(mute)=cmd.get_entity(e_id)else{return;};track.uuid_to_entity.remove(&id);track.entity_to_uuid.remove(&e_id);e.despawn();}" in crecv
+    s_del = "Message::EntityDelete{id:mid}=>{ifletSome(id)=track.uuid_to_entity.get(&mid){letid=*id;ifletSome(mute)=cmd.get_entity(id){e.despawn();track.uuid_to_entity.remove(&mid);track.entity_to_uuid.remove(&id);}}repeat_except_for_client(client_id,server,&Message::EntityDelete{id:mid});}" in srecv
+    c_spawn = "Message::EntitySpawn{id}=>{ifletSome(e_id)=track.uuid_to_entity.get(&id){ifcmd.get_entity(*e_id).is_some(){return;}}lete_id=cmd.spawn(SyncEntity{uuid:id}).id();track.uuid_to_entity.insert(id,e_id);track.entity_to_uuid.insert(e_id,id);}" in crecv
+    s_spawn = "Message::EntitySpawn{id}=>{lete_id=cmd.spawn(SyncEntity{uuid:id}).id();track.uuid_to_entity.insert(id,e_id);track.entity_to_uuid.insert(e_id,id);repeat_except_for_client(client_id,server,&Message::EntitySpawn{id});}" in srecv
+    sb = re.sub(r"\s+", "", fn_body(strip_comments(open(os.path.join(REPO, "src/server/track.rs")).read()), "entity_removed_from_server"))
+    cb = re.sub(r"\s+", "", fn_body(strip_comments(open(os.path.join(REPO, "src/client/track.rs")).read()), "entity_removed_from_client"))
+    removed = ("track.entity_to_uuid.retain(|&e_id,&mutuuid|{ifquery.get(e_id).is_err(){despawned_entities.insert(uuid);false}else{true}});" in sb
+               and "track.uuid_to_entity.remove(uuid);" in sb and "Message::EntityDelete{id:*uuid}" in sb
+               and "track.uuid_to_entity.retain(|&s_e_id,&mute_id|{ifquery.get(e_id).is_err(){despawned_entities.insert(s_e_id);false}else{true}});" in cb
+               and "Message::EntityDelete{id}" in cb)
+    text = "/-! GENERATED by /verif/translate/translate.py from src/{server,client}/{receiver,track}.rs — do not edit. -/\nnamespace BevySync\nnamespace Generated\n\n"
+    for name, val in (("entDeleteHandlersNamedEntityOnly", c_del and s_del), ("entSpawnHandlers", c_spawn and s_spawn), ("entRemovedDetectors", removed)):
+        text += "def %s : Bool := %s\n" % (name, str(bool(val)).lower())
+    text += FOOTER
+    write("Ent.lean", text)
+
+
 def gen_asset():
     """facts of the uuid-asset path the Asset slice relies on (src/lib_priv.rs, networking/assets/mod.rs,
     {server,client}/{track,receiver}.rs)"""
@@ -680,6 +709,7 @@ def gen_asset():
 
 def main():
     try:
+        gen_ent()
         gen_asset()
         gen_conn()
         gen_filter()
